@@ -135,27 +135,7 @@ func (fr *Frame) callFunction(st *State, fn *ssa.Function, args []Val, binds []V
 	if fn == root.fn && fn != nil {
 		fr.oblige(st, "termination", "recursive-call-without-variant", False, nil, pos)
 	}
-	// call-site assertions of the function under verification
-	if fr.parent == nil && fr.fc != nil && fr.fc.CallSites != nil {
-		if cls := fr.fc.CallSites[fn.Name()]; len(cls) > 0 {
-			sc := fr.loopScope(st, st.alloc)
-			for i, a := range args {
-				sc.vars[fmt.Sprintf("arg%d", i)] = a
-			}
-			for i, c := range cls {
-				parts := SplitConj(c.E)
-				for k, p := range parts {
-					name := fn.Name() + "." + clauseName(c, i)
-					if len(parts) > 1 {
-						name = fmt.Sprintf("%s.%d", name, k+1)
-					}
-					cc := *c
-					cc.E, cc.Text = p, ExprString(p)
-					fr.oblige(st, "callsite", name, fr.evalBool(sc, p), &cc, pos)
-				}
-			}
-		}
-	}
+	fr.callHooks(st, fn.Name(), args, pos)
 	if fc != nil && !fc.Inline {
 		fc.Used = true
 		return fr.applyContract(st, fc, sig, args, pos, shortKey(key))
@@ -295,6 +275,7 @@ func (fr *Frame) execInvoke(st *State, cc *ssa.CallCommon, args []Val, pos token
 	nn := Not(Eq(recv.C[0], IntT(0)))
 	fr.oblige(st, "nil-deref", fr.describe(cc.Value)+"."+m.Name(), nn, nil, pos)
 	fr.assume(st, nn)
+	fr.callHooks(st, m.Name(), args, pos)
 	if fc := fr.en.CS.Funcs[key]; fc != nil {
 		fc.Used = true
 		return fr.applyContract(st, fc, cc.Signature(), args, pos, shortKey(key))
@@ -722,4 +703,44 @@ func mentionsInternal(e Expr, fc *FuncContract) bool {
 	}
 	walk(e)
 	return found
+}
+
+// callHooks runs, for a call made directly by the function under verification, its call-site
+// assertions and its oncall ghost updates (arguments are arg0, arg1, ...; receiver first).
+func (fr *Frame) callHooks(st *State, name string, args []Val, pos token.Pos) {
+	if fr.parent != nil || fr.fc == nil {
+		return
+	}
+	if cls := fr.fc.CallSites[name]; len(cls) > 0 {
+		sc := fr.loopScope(st, st.alloc)
+		for i, a := range args {
+			sc.vars[fmt.Sprintf("arg%d", i)] = a
+		}
+		for i, c := range cls {
+			parts := SplitConj(c.E)
+			for k, p := range parts {
+				nm := name + "." + clauseName(c, i)
+				if len(parts) > 1 {
+					nm = fmt.Sprintf("%s.%d", nm, k+1)
+				}
+				cc := *c
+				cc.E, cc.Text = p, ExprString(p)
+				fr.oblige(st, "callsite", nm, fr.evalBool(sc, p), &cc, pos)
+			}
+		}
+	}
+	for _, gu := range fr.fc.GhostUps {
+		if gu.OnCall != name {
+			continue
+		}
+		sc := fr.loopScope(st, st.alloc)
+		for i, a := range args {
+			sc.vars[fmt.Sprintf("arg%d", i)] = a
+		}
+		v := fr.evalExpr(sc, gu.E)
+		if old, ok := st.ghost[gu.Name]; ok {
+			v = fr.coerce(v, old)
+		}
+		st.ghost[gu.Name] = v
+	}
 }
